@@ -31,8 +31,8 @@ Hypothesis expand_render : forall f env d,
   rep_top d = true -> parse f (expand_text env (render f d)) = Some (shape rf f (expand_doc env d)).
 
 (* Format independence: for every type of the family (14 scalar kinds, pointers, slices, maps,
-   nested and embedded structs, optional / optional=dep / default / range / options on every
-   field; no "string" option, no range/options on float fields, embedded structs non-optional)
+   nested and embedded structs incl. optional and pointer ones, optional / optional=dep /
+   default / range / options on every field; no "string" option, no options= on float fields)
    and every document representable in all three formats whose float literals sit only where
    their text cannot matter (not: integral at an integer position = F8a; not at all at a
    string / bool slice-or-map element = F8c), YAML, TOML and JSON give the same verdict and,
